@@ -401,4 +401,65 @@ Section RBTheorems.
       apply pt_eqb_of_aff; [exact Vl|exact Vr|].
       rewrite Al, Ar, At, Ayc, Ay. apply rb_response; try assumption. apply V2.
   Qed.
+
+  (* the private form used by the ciphertext-bound proofs: any challenge context, default or explicit first base *)
+  Theorem rb_cp_complete_private (g1 : option point) g2 x r context :
+    valid (base_or_gen B g1) -> valid g2 ->
+    nmul Ln (aff (base_or_gen B g1)) = eid -> nmul Ln (aff g2) = eid -> 0 <= x -> 0 <= r ->
+    cp_verify_private B (b_pow B (base_or_gen B g1) x) (b_pow B g2 x) g1 g2
+      (cp_prove_private B x (b_pow B (base_or_gen B g1) x) (b_pow B g2 x) g1 g2 context r) context = true.
+  Proof.
+    intros V1 V2 H1 H2 Hx Hr. set (b1 := base_or_gen B g1) in *.
+    unfold cp_verify_private, cp_prove_private. fold b1.
+    cbn [c_com1 c_com2 c_chal c_resp]. rewrite Z.eqb_refl. cbn [andb].
+    set (c := cp_challenge B b1 g2 (b_pow B b1 x) (b_pow B g2 x) (b_pow B b1 r) (b_pow B g2 r) context).
+    assert (Hc : 0 <= c) by (unfold c, cp_challenge; apply rb_hash_nonneg).
+    cbn [b_modp b_mul RB]. change (b_eqb B) with (pt_eqb K).
+    apply andb_true_iff. split.
+    - destruct (rb_pow_correct b1 x V1) as [Vy Ay]. destruct (rb_pow_correct b1 r V1) as [Vt At].
+      destruct (rb_pow_correct _ c Vy) as [Vyc Ayc].
+      destruct (rb_pow_correct b1 (b_xmodq B (b_xadd B r (b_xmul B c x))) V1) as [Vl Al].
+      destruct (pt_add_correct K _ _ Vt Vyc) as [Vr Ar].
+      apply pt_eqb_of_aff; [exact Vl|exact Vr|].
+      rewrite Al, Ar, At, Ayc, Ay. apply rb_response; try assumption. apply V1.
+    - destruct (rb_pow_correct g2 x V2) as [Vy Ay]. destruct (rb_pow_correct g2 r V2) as [Vt At].
+      destruct (rb_pow_correct _ c Vy) as [Vyc Ayc].
+      destruct (rb_pow_correct g2 (b_xmodq B (b_xadd B r (b_xmul B c x))) V2) as [Vl Al].
+      destruct (pt_add_correct K _ _ Vt Vyc) as [Vr Ar].
+      apply pt_eqb_of_aff; [exact Vl|exact Vr|].
+      rewrite Al, Ar, At, Ayc, Ay. apply rb_response; try assumption. apply V2.
+  Qed.
+
+  (* verifiable decryption, completeness: the factor and proof released by the key holder verify against the holder's
+     public key and the ciphertext, and the returned plaintext is mhr - [sk]gr, for every key, nonce, label and every
+     ciphertext whose second component has order dividing l (every honestly made ciphertext: gr = [r]B) *)
+  Theorem rb_decrypt_and_prove_complete sk (c : ctext B) label r :
+    valid (mhr c) -> valid (gr c) -> nmul Ln (aff (gr c)) = eid -> 0 <= sk -> 0 <= r ->
+    exists d pf, decrypt_and_prove B sk (pk_of_sk B sk) c label r = Ok (d, pf) /\
+      verify_decryption B (pk_of_sk B sk) (decryption_factor B sk c) (mhr c) (gr c) pf label = true /\
+      valid d /\ aff d = eadd (aff (mhr c)) (eneg (nmul (Z.to_nat sk) (aff (gr c)))).
+  Proof.
+    intros Vm Vg Hg Hsk Hr.
+    exists (pt_add K (mhr c) (pt_neg K (b_pow B (gr c) sk))).
+    exists (decryption_proof B sk (pk_of_sk B sk) (b_pow B (gr c) sk) (mhr c) (gr c) label r).
+    split; [reflexivity|].
+    destruct (rb_pow_correct (gr c) sk Vg) as [Vf Af].
+    destruct (pt_neg_correct K _ Vf) as [Vn An].
+    destruct (pt_add_correct K _ _ Vm Vn) as [Vd Ad].
+    split; [|split; [exact Vd|]].
+    - pose proof (rb_cp_complete_private None (gr c) sk r (ctx_mhr_label B (mhr c) label)
+                    rb_gen_valid Vg (base_order K) Hg Hsk Hr) as H.
+      unfold base_or_gen in H. exact H.
+    - rewrite Ad, An, Af. reflexivity.
+  Qed.
+
+  (* honestly made ciphertexts meet the order premise *)
+  Lemma rb_gr_order pk m r : nmul Ln (aff (gr (encrypt_with_randomness B pk m r))) = eid.
+  Proof.
+    unfold encrypt_with_randomness, b_gpow. cbn [gr].
+    destruct (rb_pow_correct (b_gen B) r rb_gen_valid) as [_ A]. rewrite A.
+    assert (C : onc (aff (b_gen B))) by apply rb_gen_valid.
+    rewrite <- (E_nmul_mul _ _ _ C), Nat.mul_comm, (E_nmul_mul _ _ _ C).
+    change (aff (b_gen B)) with (aff (pt_base K)). rewrite (base_order K). apply E_nmul_eid.
+  Qed.
 End RBTheorems.
